@@ -854,7 +854,17 @@ protected:
       if (isChunked)
       {
         // Handle chunked encoding
-        requestEndPos = findChunkedRequestEnd(dataStr, headerEnd + 4);
+        bool invalidChunkSize = false;
+        requestEndPos = findChunkedRequestEnd(dataStr, headerEnd + 4, invalidChunkSize);
+        if (invalidChunkSize)
+        {
+          // More data cannot repair a malformed chunk-size line; reject instead of
+          // waiting for it (RFC 9112 §7.1). sendErrorResponse closes the session.
+          iora::core::Logger::error("HttpServer: Invalid chunk size in chunked encoding for "
+                                    "session " + std::to_string(sid) + " - closing connection");
+          sendErrorResponse(sid, 400, "Bad Request");
+          return;
+        }
         if (requestEndPos == std::string::npos)
         {
           break; // Need more data for chunked body
@@ -1393,8 +1403,10 @@ protected:
                               std::to_string(sid));
   }
 
-  /// \brief Find the end of a chunked request body
-  std::size_t findChunkedRequestEnd(const std::string &data, std::size_t bodyStart) const
+  /// \brief Find the end of a chunked request body. Returns npos when more data is
+  /// needed, or, with \p invalidChunkSize set, when a chunk-size line is malformed.
+  std::size_t findChunkedRequestEnd(const std::string &data, std::size_t bodyStart,
+                                    bool &invalidChunkSize) const
   {
     std::size_t pos = bodyStart;
 
@@ -1410,13 +1422,9 @@ protected:
       // Parse chunk size (hex)
       std::string chunkSizeStr = data.substr(pos, chunkSizeLine - pos);
       std::size_t chunkSize;
-      try
+      if (!HttpResponse::parseChunkSizeLine(chunkSizeStr, chunkSize))
       {
-        chunkSize = std::stoul(chunkSizeStr, nullptr, 16);
-      }
-      catch (...)
-      {
-        iora::core::Logger::error("HttpServer: Invalid chunk size in chunked encoding");
+        invalidChunkSize = true;
         return std::string::npos;
       }
 
